@@ -1,39 +1,7 @@
 (* Correspondence runner for C20 (find_diff_start / find_diff_end) *)
 From Coq Require Import ZArith NArith List Bool Arith.
-From PM Require Import Model.Data Model.Mark Model.Tree Spec.Tokens Model.Diff Corr.Common Corr.Tree.
+From PM Require Import Model.Data Model.Mark Model.Tree Spec.Tokens Spec.DiffSpec Model.Diff Corr.Common Corr.Tree.
 Import ListNotations.
-
-(* tokens with the close token carrying its node's markup: the scans only
-   descend into nodes with identical markup, so a close only "agrees" with
-   the close of a same-markup node *)
-Inductive atok := AOpen (ty : nat) (a : attrs) (m : list mark) | AClose (ty : nat) (a : attrs) (m : list mark)
-                | ALeaf (ty : nat) (a : attrs) (m : list mark) | AChar (u : N) (m : list mark).
-
-Section S.
-Variable s : schema.
-Fixpoint atoks (n : node) : list atok :=
-  match n with
-  | Text t m => List.map (fun u => AChar (unit_val u) m) (units t)
-  | Elem ty a m cs =>
-    if is_leaf_ty s ty then [ALeaf ty a m]
-    else AOpen ty a m :: (fix go (l : list node) : list atok := match l with [] => [] | c :: r => atoks c ++ go r end) cs
-         ++ [AClose ty a m]
-  end.
-Fixpoint aftoks (l : list node) : list atok := match l with [] => [] | c :: r => atoks c ++ aftoks r end.
-End S.
-
-Definition atok_eqb (x y : atok) : bool :=
-  match x, y with
-  | AOpen t a m, AOpen t' a' m' | AClose t a m, AClose t' a' m' | ALeaf t a m, ALeaf t' a' m' =>
-    Nat.eqb t t' && attrs_eqb a a' && marks_eqb m m'
-  | AChar u m, AChar u' m' => N.eqb u u' && marks_eqb m m'
-  | _, _ => false
-  end.
-Fixpoint lcp (a b : list atok) : nat :=
-  match a, b with
-  | x :: a', y :: b' => if atok_eqb x y then S (lcp a' b') else 0
-  | _, _ => 0
-  end.
 
 Inductive case :=
 | CDiff (s : schema) (a b : list node) (obs_start : res (option nat)) (obs_end : res (option (nat * nat))).
